@@ -674,6 +674,7 @@ func checkC07(c *Ctx) {
 	}
 	r.Count("paths enumerated", sm.an.PathsSeen)
 	c.c07Mem(sm)
+	c.c07FileIDs()
 	c.c07File(sm)
 	c.c07Latest()
 	// the model treats a failed or interrupted add as a no-op: a mailbox directory without an
@@ -708,6 +709,65 @@ func isIncrementOf(v ssa.Value, f *types.Var) bool {
 		return false
 	}
 	return eng.SameField(eng.LoadedField(b.X), f)
+}
+
+// c07FileIDs: a file-store message id is made from the clock (plus the process-wide sequence
+// number): with a timestamp taken from the message being stored, two messages carrying the same
+// Date collide whenever their sequence numbers agree modulo the counter's range, and then share
+// an id and a raw file.
+func (c *Ctx) c07FileIDs() {
+	r, p := c.R, c.P
+	r.Rule("C07/ID/file-clock", "file store: the time that goes into a new message's id is time.Now(), not a value taken from the message being stored")
+	fFid := p.Field("pkg/storage/file", "Message", "Fid")
+	if fFid == nil {
+		return
+	}
+	isTime := func(t types.Type) bool {
+		n, ok := t.(*types.Named)
+		return ok && n.Obj().Pkg() != nil && n.Obj().Pkg().Path() == "time" && n.Obj().Name() == "Time"
+	}
+	var fromClock func(v ssa.Value, depth int) bool
+	fromClock = func(v ssa.Value, depth int) bool {
+		if depth > 5 {
+			return false
+		}
+		v = resolveCell(p.Actual(resolveCell(v)))
+		call, ok := v.(*ssa.Call)
+		if !ok {
+			return false
+		}
+		switch eng.CalleeName(call.Common()) {
+		case "time.Now":
+			return true
+		case "(time.Time).UTC", "(time.Time).Local", "(time.Time).Round", "(time.Time).Truncate":
+			return fromClock(call.Call.Args[0], depth+1)
+		}
+		return false
+	}
+	n := 0
+	for _, st := range eng.StoresToField(pkgFuncs(p, "pkg/storage/file"), fFid) {
+		idc, ok := st.Store.Val.(*ssa.Call)
+		if !ok {
+			continue
+		}
+		g := eng.StaticCallee(idc.Common())
+		if g == nil || eng.FuncPkgPath(g) != eng.Mod+"/pkg/storage/file" {
+			continue
+		}
+		for _, a := range idc.Call.Args {
+			if !isTime(a.Type()) {
+				continue
+			}
+			n++
+			cons := "id@" + shortFn(eng.Outer(st.Fn))
+			if fromClock(a, 0) {
+				r.Ok("C07/ID/file-clock", cons, p.InstrPos(st.Store), "the id's timestamp is time.Now()")
+			} else {
+				r.Bad("C07/ID/file-clock", cons, p.InstrPos(st.Store), "the timestamp that goes into the new message's id is not the clock: two messages that carry the same date get the same id once the sequence counter wraps, and then share one raw file (each reads back the other's content; removing one removes the other's body)")
+			}
+		}
+	}
+	r.Floor("C07/ID/file-clock", "id constructions with a timestamp in the file store", n, 1)
 }
 
 func (c *Ctx) c07Mem(sm *storeModel) {
